@@ -6,9 +6,12 @@ import (
 	"path/filepath"
 	"strings"
 	"sync"
+	"sync/atomic"
 
 	"github.com/antlr4-go/antlr/v4"
 	parser "github.com/openfga/language/pkg/go/gen"
+
+	"verif/internal/g4/pinnedlexer"
 )
 
 // StripStrict is an independent implementation of the documented comment rule and nothing else:
@@ -58,8 +61,22 @@ func (e *errCount) SyntaxError(_ antlr.Recognizer, _ interface{}, _, _ int, _ st
 // LexTypes runs a fresh instance of the generated Go lexer with its own error listener and returns
 // the default-channel token types as symbolic names (terminated by "EOF") plus the number of
 // lexer errors.
+//
+// Which lexer: as long as OpenFGALexer.g4 in the repository is byte-identical to the copy pinned here, the lexer
+// generated from that grammar at the pinned commit (vendored in internal/g4/pinnedlexer) is THE lexer of the grammar,
+// whatever stands in the repository's pkg/go/gen: a hand edit of the generated lexer must not be able to talk the
+// harness's own self-checks ("is this rendering grammatical?") into agreeing with the library. Once the grammar file
+// changes, the repository's generated lexer is used (C19 ties it to the grammar).
 func LexTypes(s string) ([]string, int) {
-	lx := parser.NewOpenFGALexer(antlr.NewInputStream(s))
+	var lx antlr.Lexer
+	var names []string
+	if pinnedLexerValid.Load() {
+		l := pinnedlexer.NewOpenFGALexer(antlr.NewInputStream(s))
+		lx, names = l, l.SymbolicNames
+	} else {
+		l := parser.NewOpenFGALexer(antlr.NewInputStream(s))
+		lx, names = l, l.SymbolicNames
+	}
 	lx.RemoveErrorListeners()
 	ec := &errCount{DefaultErrorListener: antlr.NewDefaultErrorListener()}
 	lx.AddErrorListener(ec)
@@ -74,8 +91,8 @@ func LexTypes(s string) ([]string, int) {
 			continue
 		}
 		tt := t.GetTokenType()
-		if tt > 0 && tt < len(lx.SymbolicNames) {
-			out = append(out, lx.SymbolicNames[tt])
+		if tt > 0 && tt < len(names) {
+			out = append(out, names[tt])
 		} else {
 			out = append(out, "?")
 		}
@@ -84,6 +101,19 @@ func LexTypes(s string) ([]string, int) {
 		}
 	}
 	return out, ec.n
+}
+
+//go:embed pinned/OpenFGALexer.g4
+var pinnedLexerGrammar string
+
+var pinnedLexerValid atomic.Bool
+
+// UsePinnedLexerFor decides once which lexer LexTypes uses (see there). Returns the decision.
+func UsePinnedLexerFor(repo string) bool {
+	b, err := os.ReadFile(filepath.Join(repo, "OpenFGALexer.g4"))
+	ok := err == nil && string(b) == pinnedLexerGrammar
+	pinnedLexerValid.Store(ok)
+	return ok
 }
 
 var (
@@ -95,6 +125,7 @@ var (
 // RepoGrammar parses <repo>/OpenFGAParser.g4 once per process.
 func RepoGrammar(repo string) (*Grammar, error) {
 	gOnce.Do(func() {
+		UsePinnedLexerFor(repo)
 		b, err := os.ReadFile(filepath.Join(repo, "OpenFGAParser.g4"))
 		if err != nil {
 			gErr = err
